@@ -92,7 +92,15 @@ func c05Run(w *verifrt.World, tier Tier) *RunResult {
 			"ruleRemoveById=9972", "ruleRemoveById=9970-9974", "ruleRemoveByTag=ovr", "ruleRemoveByMsg=ovr", "ruleRemoveTargetById=9972;ARGS_POST", "ruleRemoveTargetById=9974;ARGS:a",
 			"ruleRemoveTargetByTag=ovr;ARGS_POST:a", "ruleRemoveTargetByMsg=ovr;ARGS_GET", "hashEngine=On", "hashEnforcement=On", "debugLogLevel=9",
 		})
-		ovr = fmt.Sprintf("SecRule REQUEST_HEADERS:X-Pred \"@streq 1\" \"id:9970,phase:1,pass,nolog,ctl:%s\"\n", ctl) +
+		// one to three overrides, in phase 1 or later (after the request body was
+		// buffered); the first is the drawn one, the others are removals and engine
+		// switches, which compose with everything
+		ovr = fmt.Sprintf("SecRule REQUEST_HEADERS:X-Pred \"@streq 1\" \"id:9970,phase:%d,pass,nolog,ctl:%s\"\n", []int{1, 1, 2, 3}[t.Draw(4)], ctl)
+		for k, n := 0, t.Draw(3); k < n; k++ {
+			ovr += fmt.Sprintf("SecRule REQUEST_HEADERS:X-Pred \"@streq 1\" \"id:%d,phase:%d,pass,nolog,ctl:%s\"\n", 9969-k, []int{1, 2, 2, 3, 5}[t.Draw(5)],
+				pick(t, []string{"ruleRemoveById=9971", "ruleRemoveById=9974", "ruleRemoveByTag=ovr", "ruleRemoveByTag=t1", "ruleRemoveByMsg=ovr", "ruleEngine=Off", "ruleEngine=DetectionOnly", "ruleRemoveTargetById=9972;ARGS_GET", "auditEngine=Off"}))
+		}
+		ovr +=
 			"SecRule REQUEST_BODY \"@rx .\" \"id:9971,phase:2,pass,nolog,tag:'ovr',msg:'ovr'\"\n" +
 			"SecRule ARGS_POST|ARGS_GET \"@rx .\" \"id:9972,phase:2,pass,nolog,tag:'ovr',msg:'ovr'\"\n" +
 			"SecRule RESPONSE_BODY \"@rx .\" \"id:9973,phase:4,pass,nolog,tag:'ovr'\"\n" +
